@@ -911,7 +911,55 @@ def _gen_parts(v, iv):
     return CLOSURES[m.group(2)], CLOSURES[m.group(1)]
 
 
+_KINDS_S, _KINDS_B = [], []
+_REC_S = {"Source", "Map", "Filter", "FilterMap", "FlatMap", "Inspect", "Enumerate", "Unique", "Chain", "Join",
+          "JoinHalf", "AntiJoin", "Difference", "PartitionSide"}
+_REC_B = {"Batch", "Map", "Filter", "FlatMap", "Chain", "Sort", "Enumerate", "Unique", "JoinHalf", "AntiJoin",
+          "CrossSingleton", "Difference", "CrossProduct", "DeferTick"}
+
+
+def _is_order_cast(k, v):
+    """a Cast that weakens the ordering (translated to SWeaken / BWeaken); retry casts
+    (weaken_retries) and kind casts (into_keyed) produce no node in the model and are not judged"""
+    if k != "Cast":
+        return False
+    iv = _node(v["inner"])[1]
+    return _order(v) == "NoOrder" and _order(iv) == "TotalOrder" and _ck(v)[0] == _ck(iv)[0]
+
+
+def _kind_entry(t, v):
+    kind, info = _ck(v)
+    if kind not in ("Stream", "KeyedStream"):
+        return None
+    b = info.get("bound") == "Bounded"
+    o = info.get("order", info.get("value_order")) == "TotalOrder"
+    r = info.get("retry", info.get("value_retry")) == "ExactlyOnce"
+    return "(%s, (%s, (%s, %s)))" % (t, vlib.g_bool(b), vlib.g_bool(o), vlib.g_bool(r))
+
+
 def tr_s(x):
+    """top-level stream node -> snode term; records the node's builder metadata for the kind check"""
+    t = _tr_s(x)
+    k, v = _node(x)
+    if isinstance(v, dict) and not _is_tick(v) and (k in _REC_S or _is_order_cast(k, v)):
+        e = _kind_entry(t, v)
+        if e:
+            _KINDS_S.append(e)
+    return t
+
+
+def tr_b(x):
+    """tick-level node -> bnode term; records the node's builder metadata for the kind check"""
+    t = _tr_b(x)
+    k, v = _node(x)
+    if isinstance(v, dict) and _is_tick(v) and (k in _REC_B or _is_order_cast(k, v)):
+        e = _kind_entry(t, v)
+        if e:
+            _KINDS_B.append(e)
+    return t
+
+
+def _tr_s(x):
     """top-level stream node -> snode term"""
     k, v = _node(x)
     if k == "Tee":
@@ -1014,7 +1062,7 @@ def tr_a(x):
     raise Untranslatable("top-level aggregate node " + k)
 
 
-def tr_b(x):
+def _tr_b(x):
     """tick-level node -> bnode term"""
     k, v = _node(x)
     if k == "Batch":
@@ -1085,6 +1133,8 @@ def translate_flow(ir):
     """IR dump (list of roots) -> (kind, term, expected_total_order|None); kind in FS / FA / B"""
     _SHARED.clear()
     del _EXTRA[:]
+    del _KINDS_S[:]
+    del _KINDS_B[:]
     if len(ir) != 1:
         raise Untranslatable("%d roots (cycles / several outputs)" % len(ir))
     rk, rv = _node(ir[0])
@@ -1128,7 +1178,8 @@ def translated_defs(ctx, binary, flows):
                 raise Untranslatable("no IR dump from the harness")
             kind, term, expected = translate_flow(r["ir"])
             defs.append("Definition %s := %s." % (gen_name(f), term))
-            report[f] = {"kind": kind, "expected_total_order": expected, "term": term, "shared_extra": list(_EXTRA)}
+            report[f] = {"kind": kind, "expected_total_order": expected, "term": term, "shared_extra": list(_EXTRA),
+                         "kinds_s": list(_KINDS_S), "kinds_b": list(_KINDS_B)}
         except Untranslatable as e:
             report[f] = {"kind": None, "why": str(e)}
     return "\n".join(defs), report
@@ -1145,6 +1196,7 @@ class Translated:
 
     def __init__(self, ctx, binary, flows):
         self.defs, self.report = translated_defs(ctx, binary, flows)
+        _TR_CURRENT[0] = self
         self.failed = [f for f, r in self.report.items() if r["kind"] is None and f not in HAND_ONLY]
 
     def ok(self, flow):
@@ -1177,6 +1229,21 @@ class Translated:
             return "(chk_wf %s)" % r["term"][len("(rinterp "):-1]
         return None
 
+    def kinds_term(self, flow):
+        """the model's kind judgement against the collection_kind metadata of every translated node"""
+        r = self.report.get(flow, {})
+        ts = []
+        if r.get("kinds_s"):
+            ts.append("(chk_kinds_s [%s])" % "; ".join(r["kinds_s"]))
+        if r.get("kinds_b"):
+            ts.append("(chk_kinds_b [%s])" % "; ".join(r["kinds_b"]))
+        if not ts:
+            return None
+        return ts[0] if len(ts) == 1 else "(N.lor %s %s)" % (ts[0], ts[1])
+
+    def kinds_count(self):
+        return sum(len(r.get("kinds_s", [])) + len(r.get("kinds_b", [])) for r in self.report.values())
+
     def wrap(self, flow, case, term):
         s = self.same(flow, case)
         if s is None or isinstance(term, int):
@@ -1186,14 +1253,28 @@ class Translated:
         return "(N.lor %s %s)" % (term, s)
 
     def summary(self):
-        return {"translated_from_ir_dump": sorted(f for f in self.report if self.ok(f)),
+        return {"kind_judgement_nodes_checked": self.kinds_count(),
+                "translated_from_ir_dump": sorted(f for f in self.report if self.ok(f)),
                 "generated_only_no_hand_term": sorted(f for f in self.report if self.ok(f) and f in GENERATED_ONLY),
                 "hand_specified_only": {f: HAND_ONLY.get(f, self.report[f].get("why")) for f in self.report if not self.ok(f)},
                 "translation_failures": {f: self.report[f].get("why") for f in self.failed}}
 
 
+_TR_CURRENT = [None]   # the run's Translated object (set by Translated.__init__)
+
+
 def emit_term_named(flow, name, res, fn="chk_emit", extras=()):
-    """emission-table term for `flow`, evaluated on the Gallina term called `name`"""
+    """emission-table term for `flow`, evaluated on the Gallina term called `name`, OR-ed with the
+    kind-judgement check of the flow's translated nodes"""
+    t = _emit_term_named(flow, name, res, fn, extras)
+    tr = _TR_CURRENT[0]
+    k = tr.kinds_term(flow) if tr is not None else None
+    if k is None or isinstance(t, int):
+        return t
+    return "(N.lor %s %s)" % (t, k)
+
+
+def _emit_term_named(flow, name, res, fn="chk_emit", extras=()):
     t = emit_term(flow, res, fn=fn)
     if isinstance(t, int):
         return t
